@@ -5,7 +5,7 @@ from props._searchprop import SEARCH_TARGETS, SEARCH_TRUST, run_search_prop, rep
 
 PROP = 'C02'
 LEAN_TARGETS = SEARCH_TARGETS
-THEOREMS = ['MM.Search.' + n for n in ('notSat_false_iff', 'C02_exhaustive_evaluated', 'C02_exhaustive', 'C02_greedy', 'C02_none_imposes_nothing')]
+THEOREMS = ['MM.Search.' + n for n in ('notSat_false_iff', 'C02_exhaustive_evaluated', 'C02_exhaustive', 'C02_greedy', 'C02_none_imposes_nothing', 'tie_share', 'tie_budget_screen', 'tie_volume', 'tie_geo_ratio')]
 TRUSTED_BASE = SEARCH_TRUST + ['theorems are stated for well-formed inputs (positive shares, finite impacts, iroas > 0); NaN/zero-share behaviour is compared by the correspondence only']
 
 
